@@ -245,6 +245,10 @@ func (m *Machine) doAssert(fr *frame, c value, label string) {
 			model, _, _ = m.modelOfInputs()
 		}
 		m.solver.Pop()
+		if r == Unsat && !m.crossUnsat(neg) {
+			m.ex.noteUnknown("solver-disagreement(assert:" + label + ")")
+			r = Unknown
+		}
 		switch r {
 		case Unsat:
 			m.res.Asserts = append(m.res.Asserts, AssertResult{Label: label, Status: "discharged", Pos: pos})
